@@ -537,11 +537,17 @@ impl File {
             .len()
             .try_into()
             .assume("serialized objects should fit in u32")?;
-        self.write_all(offset, &len.to_be_bytes())?;
+        // Length prefix and value go out in ONE write: issued separately, a
+        // crash could persist a value without its prefix (slot invalid, fine),
+        // and a later crash could then persist only the next prefix over it,
+        // reviving that stale value as a seemingly valid record.
+        let mut record = alloc::vec::Vec::with_capacity(bytes.len().saturating_add(4));
+        record.extend_from_slice(&len.to_be_bytes());
+        record.extend_from_slice(bytes);
+        self.write_all(offset, &record)?;
         let offset2 = offset
             .checked_add(LEN_PREFIX_LEN)
             .assume("offset not near u64::MAX")?;
-        self.write_all(offset2, bytes)?;
         let off = offset2
             .checked_add(len.into())
             .assume("offset valid after write")?;
